@@ -15,6 +15,8 @@ pub struct Entry {
     pub pk: [u8; 32],
     pub msg: Vec<u8>,
     pub sig: [u8; 64],
+    /// the key's secret scalar (for corruptions only the key owner can make)
+    pub a: Sc,
 }
 
 /// a deterministic pool of honest (key, message, signature) entries (torsion-free canonical keys and R)
@@ -33,7 +35,7 @@ pub fn honest_pool() -> &'static Vec<Entry> {
             let msg: Vec<u8> = (0..len).map(|j| (i * 31 + j * 7) as u8).collect();
             let key_seed = if i % 3 == 2 { pool_seed(i - 1) } else { seed };
             let e = eddsa::expand(&key_seed);
-            v.push(Entry { pk: e.pk, sig: eddsa::sign(&key_seed, &msg), msg });
+            v.push(Entry { pk: e.pk, sig: eddsa::sign(&key_seed, &msg), msg, a: Sc::from_bytes_mod_order(&e.a_bytes) });
             SEEDS.with(|s| s.borrow_mut().push(key_seed));
         }
         v
@@ -127,13 +129,26 @@ fn corrupt(v: &mut Vec<Entry>, i: usize, j: usize, kind: u8, bit: usize) {
                 y = y.add(&crate::model::fp::Fp::ONE);
             }
         }
+        8 => {
+            // owner-made: an undecodable R together with S = H(R||A||M) * a, i.e. the equation holds as soon as
+            // the R term is DROPPED instead of failing the batch (seeded change C13g: Pippenger skipping None points)
+            let mut y = crate::model::fp::Fp::from_u64(2 + bit as u64 % 1000);
+            loop {
+                let b = y.to_bytes();
+                if crate::model::ed::Aff::decompress(&b).is_none() { v[i].sig[..32].copy_from_slice(&b); break; }
+                y = y.add(&crate::model::fp::Fp::ONE);
+            }
+            let k = Sc::from_bytes_mod_order_wide(&eddsa::sha512(&[&v[i].sig[..32], &v[i].pk, &v[i].msg]));
+            let s = k.mul(&v[i].a);
+            v[i].sig[32..].copy_from_slice(&s.to_bytes());
+        }
         _ => { let e = v[j].clone(); v[i] = e; } // duplicate another entry
     }
 }
 
 pub fn batch(sizes: Vec<usize>) -> BoxedStrategy<Req> {
     let np = honest_pool().len();
-    (prop::sample::select(sizes), any::<u64>(), vec((any::<usize>(), any::<usize>(), 0u8..8, any::<usize>()), 0..4), prop_oneof![6 => Just(0u8), 1 => 1u8..5], 1u8..3, any::<bool>())
+    (prop::sample::select(sizes), any::<u64>(), vec((any::<usize>(), any::<usize>(), 0u8..10, any::<usize>()), 0..4), prop_oneof![6 => Just(0u8), 1 => 1u8..5], 1u8..3, any::<bool>())
         .prop_map(move |(n, start, corruptions, drop, calls, permute)| {
             let mut v: Vec<Entry> = (0..n).map(|i| honest_pool()[(start as usize).wrapping_add(i * 7) % np].clone()).collect();
             for (i, j, kind, bit) in corruptions {
@@ -193,7 +208,7 @@ pub fn single_corruption() -> BoxedStrategy<Req> {
         1 => prop::sample::select(vec![511usize, 512, 513, 600, 767, 769, 1023, 1025, 1100]),
         1 => 40usize..600,
     ];
-    (sizes, any::<usize>(), 0usize..14, 0u8..8, any::<usize>(), 0u8..8).prop_map(move |(n, start, pos, kind, bit, permute)| {
+    (sizes, any::<usize>(), 0usize..14, 0u8..10, any::<usize>(), 0u8..8).prop_map(move |(n, start, pos, kind, bit, permute)| {
         // one time in eight the batch is n copies of the same entry (duplicates are allowed)
         let mut v: Vec<Entry> = (0..n).map(|k| honest_pool()[(start % np + if permute == 0 { 0 } else { k }) % np].clone()).collect();
         let i = match pos {
@@ -211,8 +226,9 @@ pub fn single_corruption() -> BoxedStrategy<Req> {
             11 => n / 2,
             _ => bit / 7,
         } % n;
-        // kind 7 = no corruption (the batch must be accepted); kind 4 (pair) is replaced by a message flip
-        let kind = if kind == 4 { 1 } else { kind };
+        // kind 7 = no corruption (the batch must be accepted); kind 4 (pair) is replaced by a message flip,
+        // kind 9 by the owner-made undecodable R
+        let kind = if kind == 4 { 1 } else if kind == 9 { 8 } else { kind };
         if kind != 7 {
             corrupt(&mut v, i, i, kind, bit);
         }
